@@ -13,6 +13,17 @@ CHECKS = {
         technique='exhaustive enumeration + Hypothesis property-based testing against a reference model'),
 }
 
+CHECKS['C07'] = dict(
+    engine='zoo+fakes3', category='exploration', design='DESIGN.md 3 C07',
+    text='Hypothesis rule-based state machine over every real cassette type (in-memory, file-based, S3 over a fake '
+         'bucket with four key prefixes incl. the empty default): save/fetch/fetch-metadata/fetch-unknown histories '
+         'with hostile key texts and faithful-domain values incl. shared sub-objects, compared with a dict model '
+         'built independently from the case description.',
+    note='S3 is exercised through the real S3TapeCassette/S3BasicFacade over pbt/fakes3.py (boto3 surface only). '
+         'Value domain bounded to what jsonpickle 0.9.3 round-trips on this interpreter. Known finding: S3 data key '
+         '"_metadata" (excluded by construction, witnessed on every run).',
+    technique='Hypothesis stateful (model-based) testing against a dict model')
+
 ENGINES = [
     ('runner', 'pbt/runner.py', 'seed/tier handling, Hypothesis drivers, sharding, evidence writer', None),
     ('refmatch', 'pbt/refmatch.py', 'reference model of metadata filter matching written from the statement',
